@@ -91,16 +91,17 @@ Satisfies(c, a) ==
     [] OTHER -> TRUE
 SatSet(c) == { a \in Assigns : Satisfies(c, a) }
 
-\* what the layer may refuse (documented as not implemented / k must be at least 3)
-Refusable(c) == \/ c.kind = "pb" /\ c.op \in {">", "<", "="}
-                \/ c.kind = "amo" /\ c.meth = "heule" /\ c.k < 3
-
 (***************************************************************************)
 (* The specified encoding of one constraint into manager m (detail level)  *)
 (***************************************************************************)
 \* the inequality as the front end (PBExpr) hands it over:  expr(terms) op bound
 NormIneq(c) == MkIneq(FoldTerms(Empty, c.terms, 1), [c |-> c.bound, t |-> <<>>], c.op)
 LitSet(ls) == { ULit(ls[i]) : i \in DOMAIN ls }
+
+\* what the layer may refuse: what it documents as not implemented -- a pseudo-Boolean =, > or < that is NOT a plain
+\* disjunction (isclause: "can be expressed as l1 v l2 v ..." -- those are posted as clauses) -- and Heule with k < 3
+Refusable(c) == \/ c.kind = "pb" /\ c.op \in {">", "<", "="} /\ ClauseForm(NormIneq(c)).kind = "no"
+                \/ c.kind = "amo" /\ c.meth = "heule" /\ c.k < 3
 
 NewMgr == [allowed |-> Assigns, cnf |-> {}, cod |-> {}, aux |-> 0, posted |-> <<>>]
 \* -> [refused, cnf, cod, aux, store, root]   (root = -1: no diagram was built)
@@ -221,6 +222,11 @@ PostCofactor == /\ Posts < MaxPosts /\ lastm > 0 /\ ~lastref
                 /\ KindTag(lastc) \in {"pb_plain", "pb_decomposition"}
                 /\ \E br \in {0, 1}, d \in {0, 1} : PostTo(lastm, Cofactor(lastc, br, d))
 
+\* Object lifecycle: the SAME constraint record posted again, to the same or to another manager (the driver then
+\* posts the very same Ineq object a second time): it must be encoded the same way both times.
+PostAgain == /\ Posts < MaxPosts /\ lastm > 0
+             /\ \E i \in DOMAIN mgrs : PostTo(i, lastc)
+
 \* behaviour generation: every maximal history is printed once
 EmitHist == /\ EMIT /\ Posts = MaxPosts /\ hist[Len(hist)].ev # "emitted"
             /\ (PROBE => hist[Len(hist)].ev = "prop" \/ lastref)
@@ -228,7 +234,7 @@ EmitHist == /\ EMIT /\ Posts = MaxPosts /\ hist[Len(hist)].ev # "emitted"
             /\ hist' = Append(hist, [ev |-> "emitted", m |-> 0, c |-> Blank])
             /\ UNCHANGED <<vars, rvars, mgrs, lastm, lastc, lastref>>
 
-SNext == NewManager \/ PostAny \/ PostCofactor \/ Probe \/ EmitHist
+SNext == NewManager \/ PostAny \/ PostCofactor \/ PostAgain \/ Probe \/ EmitHist
 SSpec == SInit /\ [][SNext]_allvars
 
 (***************************************************************************)
